@@ -72,3 +72,25 @@ def run(ctx):
         ok = core.eval_pred(ctx, "c17_set_pred", args)
         core.record_failures(ctx, "C17-with_port-build", "c17_set_pred", ok,
                              lambda m, k=k: {"backend": k, "request": reqs[m][1], "impl": outs[k][m]})
+
+    # a scheme change after the source URL has been used (hashed, printed, every accessor read):
+    # the result must report the port exactly like a URL constructed with the new scheme
+    import suites
+    reqs, meta = [], []
+    for sc1 in [x for x in SCHEMES if x]:
+        for sc2 in [x for x in SCHEMES if x]:
+            for h in HOSTS[:4]:
+                for ui in USERINFO[:2]:
+                    for pt in (None, "0", "21", "80", "443", "8080"):
+                        b = sc1 + "://" + ui + h + ("" if pt is None else ":" + pt) + "/x?q#f"
+                        for prog in ([["push", ["url", b]], ["touch"], ["op", "with_scheme", sc2]],
+                                     [["push", ["url", b]], ["touch"], ["op", "with_scheme", sc2], ["touch"], ["op", "with_scheme", sc1], ["touch"], ["op", "with_scheme", sc2]]):
+                            reqs.append(("observe", [0, prog]))
+                            meta.append((sc2, pt))
+    outs = core.check_suite(ctx, "C17-scheme-change-after-use", reqs, split=True, exhaustive=True,
+                            nontrivial=lambda rs: {repr(a) for _, a in rs})
+    for k in [k for k in outs if k != "model"]:
+        args = [" ".join([enc(sc), enc(pt), outs[k][i]]) for i, (sc, pt) in enumerate(meta)]
+        ok = core.eval_pred(ctx, "c17_ctor_pred", args)
+        core.record_failures(ctx, "C17-scheme-change-after-use", "c17_ctor_pred", ok,
+                             lambda m, k=k: {"backend": k, "request": reqs[m][1], "impl": outs[k][m]})
